@@ -5,7 +5,7 @@ ENGINES = [
     {"name": "E2-sched", "path": "mc/sched.py", "serves_properties": ["C02", "C05"],
      "kind_free_text": "stateless preemption-bounded exploration of the real joblib thread-pool tasks under a baton "
                        "scheduler (sys.settrace scheduling points), one pool invocation at a time"},
-    {"name": "E1-enum", "path": "mc/core.py", "serves_properties": ["C01", "C02", "C03", "C18", "C20"],
+    {"name": "E1-enum", "path": "mc/core.py", "serves_properties": ["C01", "C02", "C03", "C11", "C12", "C17", "C18", "C19", "C20"],
      "kind_free_text": "bounded exhaustive enumeration of inputs/configurations/operation sequences on the real code "
                        "with reference-model or differential oracle; 16 forked workers"},
 ]
@@ -72,6 +72,46 @@ CHECKS.update({
              "one row per hit in document order with the spectrum's scan/charge/RT/mass, run file name, modified "
              "peptide string, all protein accessions, numeric scores and the decoy label rule; negatives must raise.",
         note="Any exception counts as rejection for malformed input; calc_mass-derived features are not compared."),
+})
+
+CHECKS.update({
+    "C11": dict(
+        level="exploration", engine="E1-enum", design="DESIGN.md 4/C11",
+        technique="bounded exhaustive enumeration of datasets x folds 2..6 x evaluation FDRs x estimators; per-fold raw "
+                  "output recovered with a recording estimator and compared with the closed-form map (r-t)/(t-d)",
+        text="For every (file, fold) of every returned result the raw output of the fold's model and the returned scores "
+             "of the same rows are recovered from the recording estimator; with t (lowest accepted target by the C01 "
+             "reference) and d (decoy median) the scores must equal (r - t)/(t - d) exactly (1e-9): strictly increasing "
+             "affine, t -> 0, d -> -1. A fold without an accepted target must make brew raise its explicit error; the "
+             "impossible-FDR family checks that error path.",
+        note="Folds with t <= d are outside the statement and skipped (counted in the evidence)."),
+    "C12": dict(
+        level="exploration", engine="E1-enum", design="DESIGN.md 4/C12",
+        technique="exhaustive enumeration of all n! row permutations (n=6,7 quick; 6..8 thorough) x shuffle x iteration "
+                  "counts x estimator kind; every fit/score call of a recording estimator checked against the C01 "
+                  "reference labels; differential invariance of the closed-form model",
+        text="Model.fit is run on every row order of small datasets with shuffling on and off; for every logged fit call "
+             "positives must be exactly the targets accepted at train_fdr under the preceding scores (C01 reference), "
+             "negatives exactly the decoys, rows and labels of the same PSM; learned weights and predictions must equal "
+             "those of the stored order (1e-9); prediction with permuted feature columns and after save/load must agree.",
+        note="The estimator is order independent by construction; training refusals are compared differentially with the "
+             "stored-order run."),
+    "C17": dict(
+        level="exploration", engine="E1-enum", design="DESIGN.md 4/C17",
+        technique="exhaustive enumeration of all sequences over a 4-letter alphabet to length 7 (quick) / 8-10 (thorough) "
+                  "x 4 enzyme patterns x missed cleavages 0..3 x all length bounds x clip x semi vs the definition",
+        text="mokapot.digest is compared with the definition (distinct cleavage sites, missed-cleavage span, length "
+             "bounds, clipped N-terminal forms, semi-enzymatic prefixes/suffixes) on every input of the bounded space; "
+             "monotonicity in missed cleavages, bounds and semi and the substring clause are checked on the outputs.",
+        note="must/allowed sets: where the statement is silent (semi forms of clipped peptides) either behaviour passes."),
+    "C19": dict(
+        level="exploration", engine="E1-enum", design="DESIGN.md 4/C19",
+        technique="exhaustive enumeration of small PIN texts (feature columns x protein-column position x rows x proteins "
+                  "per row x DefaultDirection variants x trailing newline x separator) vs a reference converter",
+        text="pin_to_valid_tsv / is_valid_tsv are run on every generated text: header kept, one line per PSM in order, "
+             "non-protein fields unchanged, proteins joined, output valid, conversion idempotent, validity predicate "
+             "exactly 'rectangular and no DefaultDirection line'; the CLI's verify step is driven on scratch files.",
+        note="Fields are non-empty and whitespace free."),
 })
 
 NA = {
